@@ -317,6 +317,8 @@ def c16_base_cases(tier, seed):
                                        'resize 1 4', 'shrink 0', 'put 0 0 3', 'clear 1', 'resize 1 1']),
         (['vec 64 1 1'], ['resize 0 1', 'reserve 0 18446744073709551615', 'reserve 0 3', 'resize 0 3',
                           'put 0 2 77', 'shrink 0', 'resize 0 2']),
+        (['vec 4 0 0', 'vec 8 1 1'], ['reserve 0 0', 'resize 0 0', 'shrink 0', 'reserve 0 1', 'resize 0 1', 'clear 0', 'shrink 0',
+                                      'reserve 0 0', 'reserve 1 0', 'resize 1 2', 'sort 1', 'reverse 1']),
         (['vec 2 1 1'], ['resize 0 3', 'put 0 0 30', 'put 0 1 20', 'put 0 2 10', 'sort 0', 'reserve 0 5',
                          'reverse 0', 'shrink 0', 'resize 0 4']),
     ]
